@@ -2,52 +2,74 @@
 # How `stone.cli.main` cuts standard input into specs (C11, stdin delivery)
 
 ```python
-parts = stdin_text.split('namespace')
+# A new spec starts at each line that begins with the namespace keyword
+parts = re.split(r'(?m)^(?=namespace\b)', stdin_text)
 if len(parts) == 1:
     specs.append(('stdin.1', parts[0]))
 else:
-    specs.append(('stdin.1', '{}namespace{}'.format(parts.pop(0), parts.pop(0))))
+    specs.append(('stdin.1', parts.pop(0) + parts.pop(0)))
     while parts:
-        specs.append(('stdin.%s' % (len(specs) + 1), 'namespace%s' % parts.pop(0)))
+        specs.append(('stdin.%s' % (len(specs) + 1), parts.pop(0)))
 ```
-(`specs` is empty before: files and stdin together are refused.)
+(`specs` is empty before: files and stdin together are refused.)  `re.split` with a pattern that matches the empty
+string cuts at every match position, position 0 included (the first part is then `''`).  `^` with `(?m)` matches at
+position 0 and after every `'\n'`; `\b` after the `e` holds at the end of the text or before a non-word character.
+
+(Until commit de8ede2 of the repository the text was cut at every occurrence of the substring `namespace`,
+defect D14: see `StoneVerif.C11.stdin_split_regression`.)
 -/
 namespace StoneVerif.Stdin
 
-/-- the separator literal of the `split` call -/
+/-- the keyword of the pattern -/
 def kw : List Char := "namespace".toList
 
-/-- Python `str.split(sep)` for a non-empty `sep`: leftmost, non-overlapping occurrences.
-`skip` = characters of a matched separator still to be passed over.  The result is never empty. -/
-def split (sep : List Char) : Nat → List Char → List (List Char)
-  | _, [] => [[]]
-  | skip + 1, _ :: cs => split sep skip cs
-  | 0, c :: cs =>
-    if sep.isPrefixOf (c :: cs) then [] :: split sep (sep.length - 1) cs
-    else
-      match split sep 0 cs with
-      | [] => [[c]]
-      | p :: ps => (c :: p) :: ps
+/-- `(?=namespace\b)` at the head of `s`; `isWord` = Python's `\w` -/
+def kwb (isWord : Char → Bool) (s : List Char) : Bool :=
+  kw.isPrefixOf s &&
+    match s.drop kw.length with
+    | [] => true
+    | c :: _ => !isWord c
 
-/-- `('stdin.%s' % k, 'namespace%s' % part)` for the parts after the first two; `k = len(specs) + 1` -/
+/-- `re.split(r'(?m)^(?=namespace\b)', s)`: `ls` = the position is the start of a line.  The head of the result is
+the rest of the part being read; the result is never empty. -/
+def splitLines (isWord : Char → Bool) : Bool → List Char → List (List Char)
+  | _, [] => [[]]
+  | ls, c :: cs =>
+    match splitLines isWord (c == '\n') cs with
+    | [] => [[c]]
+    | h :: t => if ls && kwb isWord (c :: cs) then [] :: (c :: h) :: t else (c :: h) :: t
+
+/-- `('stdin.%s' % k, part)` for the parts after the first two; `k = len(specs) + 1` -/
 def number (k : Nat) : List (List Char) → List (Nat × List Char)
   | [] => []
-  | p :: ps => (k, kw ++ p) :: number (k + 1) ps
+  | p :: ps => (k, p) :: number (k + 1) ps
 
 /-- the stdin branch, with the index `k` standing for the name `stdin.k` -/
-def splitStdinL (text : List Char) : List (Nat × List Char) :=
-  match split kw 0 text with
+def splitStdinW (isWord : Char → Bool) (text : List Char) : List (Nat × List Char) :=
+  match splitLines isWord true text with
   | [] => []
   | [p] => [(1, p)]
-  | p0 :: p1 :: more => (1, p0 ++ kw ++ p1) :: number 2 more
+  | p0 :: p1 :: more => (1, p0 ++ p1) :: number 2 more
+
+/-- `\w` on ASCII; the model is claimed for texts in which the character right after a line-initial `namespace` is
+ASCII (a non-ASCII character there is read as a word character, as Python does for letters and digits) -/
+def asciiWord (c : Char) : Bool := c.isAlphanum || c == '_' || c.toNat ≥ 128
+
+def splitStdinL (text : List Char) : List (Nat × List Char) := splitStdinW asciiWord text
 
 /-- `(name, text)` pairs as handed to `specs_to_ir` -/
 def splitStdin (text : String) : List (String × String) :=
   (splitStdinL text.toList).map fun p => ("stdin." ++ toString p.1, String.ofList p.2)
 
-/-- number of positions at which `sep` occurs in `s` (overlapping occurrences counted) -/
-def occ (sep : List Char) : List Char → Nat
-  | [] => 0
-  | c :: cs => (if sep.isPrefixOf (c :: cs) then 1 else 0) + occ sep cs
+/-- number of lines of `s` (the first one counted only if `ls`) that begin with `namespace\b` -/
+def starts (isWord : Char → Bool) : Bool → List Char → Nat
+  | _, [] => 0
+  | ls, c :: cs => (if ls && kwb isWord (c :: cs) then 1 else 0) + starts isWord (c == '\n') cs
+
+/-- the text is empty or ends with a newline -/
+def endsNL : List Char → Bool
+  | [] => true
+  | [c] => c == '\n'
+  | _ :: cs => endsNL cs
 
 end StoneVerif.Stdin
